@@ -274,20 +274,26 @@ def Op.valid : Op → Prop
   | .prod _ _ _ seq n _ _ _ => 1 ≤ n ∧ 0 ≤ seq
   | _ => True
 
-def AllInv (s : State) : Prop := ∀ pd ∈ s.parts, PInv pd
+/-- what an invariant of one partition must be preserved by: the three log operations. -/
+structure Pres (I : Part → Prop) : Prop where
+  push : ∀ pd b t, 1 ≤ b.n → b.ctl = false → b.txn = t → I pd → I (pushBatch pd b t)
+  endTx : ∀ pd k e c, I pd → I (endTxPart pd k e c)
+  del : ∀ pd off, I pd → I (deleteRecords pd off).1
+
+def AllI (I : Part → Prop) (s : State) : Prop := ∀ pd ∈ s.parts, I pd
 
 theorem setProd_parts (s : State) (k : Int) (p : Prod) : (setProd s k p).parts = s.parts := by
   unfold setProd; split <;> rfl
 
-theorem set_inv (ps : List Part) (p : Nat) (x : Part) (h : ∀ pd ∈ ps, PInv pd) (hx : PInv x) : ∀ pd ∈ ps.set p x, PInv pd := by
+theorem set_inv (I : Part → Prop) (ps : List Part) (p : Nat) (x : Part) (h : ∀ pd ∈ ps, I pd) (hx : I x) : ∀ pd ∈ ps.set p x, I pd := by
   intro pd hpd
   rcases List.mem_or_eq_of_mem_set hpd with h1 | h1
   · exact h pd h1
   · exact h1 ▸ hx
 
-theorem endTx_inv (s : State) (k : Int) (pr : Prod) (c : Bool) (h : AllInv s) : AllInv (endTx s k pr c) := by
-  have h : ∀ pd ∈ s.parts, PInv pd := h
-  unfold AllInv endTx
+theorem endTx_inv (I : Part → Prop) (hp : Pres I) (s : State) (k : Int) (pr : Prod) (c : Bool) (h : AllI I s) : AllI I (endTx s k pr c) := by
+  have h : ∀ pd ∈ s.parts, I pd := h
+  unfold AllI endTx
   rw [setProd_parts]
   simp only
   generalize pr.txParts = l
@@ -299,10 +305,10 @@ theorem endTx_inv (s : State) (k : Int) (pr : Prod) (c : Bool) (h : AllInv s) : 
     apply ih
     split
     · rename_i pd hpd
-      exact set_inv ps q _ h (pinv_endTx pd k pr.epoch c (h pd (List.mem_of_getElem? hpd)))
+      exact set_inv I ps q _ h (hp.endTx pd k pr.epoch c (h pd (List.mem_of_getElem? hpd)))
     · exact h
 
-theorem expire_inv (f : Nat) (s : State) (h : AllInv s) : AllInv (expire f s) := by
+theorem expire_inv (I : Part → Prop) (hp : Pres I) (f : Nat) (s : State) (h : AllI I s) : AllI I (expire f s) := by
   induction f generalizing s with
   | zero => exact h
   | succ f ih =>
@@ -315,11 +321,28 @@ theorem expire_inv (f : Nat) (s : State) (h : AllInv s) : AllInv (expire f s) :=
       simp only at hs'
       split at hs'
       · simp at hs'
-      · simp only [Option.some.injEq] at hs'
-        rw [← hs']
-        exact endTx_inv _ _ _ _ h
+      · split at hs'
+        · simp only [Option.some.injEq] at hs'
+          rw [← hs']
+          exact endTx_inv I hp _ _ _ _ h
+        · simp only [Option.some.injEq] at hs'
+          rw [← hs']
+          exact endTx_inv I hp _ _ _ _ h
 
-theorem expireAll_inv (s : State) (h : AllInv s) : AllInv (expireAll s) := expire_inv _ s h
+theorem expireOne_inv (I : Part → Prop) (hp : Pres I) (s s' : State) (h : AllI I s) (hs' : expireOne s = some s') : AllI I s' := by
+  unfold expireOne at hs'
+  simp only at hs'
+  split at hs'
+  · simp at hs'
+  · split at hs'
+    · simp only [Option.some.injEq] at hs'
+      rw [← hs']
+      exact endTx_inv I hp _ _ _ _ h
+    · simp only [Option.some.injEq] at hs'
+      rw [← hs']
+      exact endTx_inv I hp _ _ _ _ h
+
+theorem expireAll_inv (I : Part → Prop) (hp : Pres I) (s : State) (h : AllI I s) : AllI I (expireAll s) := expire_inv I hp _ s h
 
 theorem pidsGet_parts (s : State) (v12 : Bool) (k : Int) (p : Nat) (tx : Bool) : (pidsGet s v12 k p tx).1.parts = s.parts := by
   unfold pidsGet
@@ -353,19 +376,21 @@ theorem produce_append_aux (s : State) (v12 : Bool) (k epoch seq n nbytes : Int)
     split
     · left; rfl
     · split
-      · right; exact ⟨pd, hpd, by simp [setPart], rfl, rfl⟩
-      · simp only
-        split
-        · left; simp [getOrCreate_parts, pidsGet_parts]
-        · split
+      · left; rfl
+      · split
+        · right; exact ⟨pd, hpd, by simp [setPart], rfl, rfl⟩
+        · simp only
+          split
           · left; simp [getOrCreate_parts, pidsGet_parts]
           · split
             · left; simp [getOrCreate_parts, pidsGet_parts]
             · split
-              · left; simp [setProd_parts, getOrCreate_parts, pidsGet_parts]
-              · left; simp [setProd_parts, getOrCreate_parts, pidsGet_parts]
-              · right
-                exact ⟨pd, hpd, by simp [setPart, setProd_parts, getOrCreate_parts, pidsGet_parts], rfl, rfl⟩
+              · left; simp [getOrCreate_parts, pidsGet_parts]
+              · split
+                · left; simp [setProd_parts, getOrCreate_parts, pidsGet_parts]
+                · left; simp [setProd_parts, getOrCreate_parts, pidsGet_parts]
+                · right
+                  exact ⟨pd, hpd, by cases tx <;> simp [setPart, setProd_parts, getOrCreate_parts, pidsGet_parts], rfl, rfl⟩
 
 theorem pushBatch_hwm (pd : Part) (b : Batch) (t : Bool) : (pushBatch pd b t).hwm = pd.hwm + b.n := rfl
 
@@ -373,44 +398,98 @@ theorem pushBatch_hwm (pd : Part) (b : Batch) (t : Bool) : (pushBatch pd b t).hw
 theorem pushBatch_offsets (pd : Part) (b : Batch) (t : Bool) :
     (pushBatch pd b t).batches = pd.batches ++ [{ b with first := pd.hwm }] ∧ (pushBatch pd b t).hwm = pd.hwm + b.n := ⟨rfl, rfl⟩
 
-theorem step_inv (s : State) (o : Op) (hv : Op.valid o) (h : AllInv s) : AllInv (step s o).1 := by
+theorem initx_inv (I : Part → Prop) (hp : Pres I) (s : State) (k t : Int) (h : AllI I s) : AllI I (initx s k t).1 := by
+  unfold initx; split
+  · exact h
+  · split
+    · unfold AllI; simp only [setProd_parts]
+      split
+      · exact endTx_inv I hp _ _ _ _ h
+      · exact h
+    · unfold AllI; simp only [setProd_parts]; exact h
+
+theorem fetch_parts (s : State) (f : FetchOp) (ord : List Nat) : (Model.C32.fetch s f ord).1.parts = s.parts := by
+  unfold Model.C32.fetch; simp only
+  split
+  · split <;> rfl
+  · split
+    · rfl
+    · split
+      · rfl
+      · split <;> rfl
+
+theorem waitLoop_inv (I : Part → Prop) (hp : Pres I) (n : Nat) (s : State) (rc : Bool) (w : Watch) (d : Int) (h : AllI I s) :
+    AllI I (waitLoop n s rc w d) := by
+  induction n generalizing s w with
+  | zero => exact h
+  | succ n ih =>
+    simp only [waitLoop]
+    split
+    · exact h
+    · rename_i s2 w2 fired hstep
+      have hs2 : AllI I s2 := by
+        unfold waitStep at hstep
+        simp only at hstep
+        split at hstep
+        · simp at hstep
+        · split at hstep
+          · simp at hstep
+          · rename_i s2' he
+            simp only [Option.some.injEq, Prod.mk.injEq] at hstep
+            rw [← hstep.1]
+            refine expireOne_inv I hp _ _ ?_ he
+            exact h
+      split
+      · exact hs2
+      · exact ih s2 w2 hs2
+
+theorem fetchW_inv (I : Part → Prop) (hp : Pres I) (s : State) (f : FetchOp) (ord : List Nat) (h : AllI I s) :
+    AllI I (fetchW s f ord).1 := by
+  unfold fetchW; simp only
+  split
+  · unfold AllI; rw [fetch_parts]; exact h
+  · split
+    · unfold AllI; rw [fetch_parts]; exact h
+    · unfold AllI; rw [fetch_parts]
+      apply waitLoop_inv I hp
+      split
+      · exact h
+      · split <;> exact h
+
+theorem step_inv (I : Part → Prop) (hp : Pres I) (s : State) (o : Op) (hv : Op.valid o) (h : AllI I s) : AllI I (step s o).1 := by
   cases o with
   | initx k t =>
-    simp only [step]; apply expireAll_inv
-    unfold initx; split
-    · exact h
-    · split <;> (unfold AllInv; simp only [setProd_parts]; exact h)
+    simp only [step]; apply expireAll_inv I hp
+    exact initx_inv I hp s k t h
   | initr k e =>
-    simp only [step]; apply expireAll_inv
+    simp only [step]; apply expireAll_inv I hp
     unfold initr; split
-    · unfold initx; split
-      · exact h
-      · split <;> (unfold AllInv; simp only [setProd_parts]; exact h)
+    · exact initx_inv I hp s k 1000 h
     · split
       · exact h
       · split
         · exact h
-        · unfold AllInv; simp only [setProd_parts]
+        · unfold AllI; simp only [setProd_parts]
           split
-          · exact endTx_inv _ _ _ _ h
+          · exact endTx_inv I hp _ _ _ _ h
           · exact h
   | addp k e ps =>
-    simp only [step]; apply expireAll_inv
+    simp only [step]; apply expireAll_inv I hp
     unfold addParts; simp only; split
     · exact h
     · split
       · exact h
       · split
         · exact h
-        · unfold AllInv; simp only [setProd_parts]; exact h
+        · unfold AllI; simp only [setProd_parts]; exact h
   | prod v k e q n nb p tx =>
-    simp only [step]; apply expireAll_inv
+    simp only [step]; apply expireAll_inv I hp
     rcases produce_append_aux s v k e q n nb p tx with h1 | ⟨pd, hpd, h1, _, _⟩
-    · unfold AllInv; rw [h1]; exact h
-    · unfold AllInv; rw [h1]
-      exact set_inv _ _ _ h (pinv_push pd _ tx (by have := hv.1; simp; omega) (h pd (List.mem_of_getElem? hpd)))
+    · unfold AllI; rw [h1]; exact h
+    · unfold AllI; rw [h1]
+      exact set_inv I _ _ _ h (hp.push pd _ tx (by have := hv.1; simp; omega) rfl rfl (h pd (List.mem_of_getElem? hpd)))
   | endt v k e c =>
-    simp only [step]; apply expireAll_inv
+    simp only [step]; apply expireAll_inv I hp
     unfold endTxn; split
     · exact h
     · split
@@ -419,35 +498,46 @@ theorem step_inv (s : State) (o : Op) (hv : Op.valid o) (h : AllInv s) : AllInv 
         · exact h
       · split
         · split
-          · unfold AllInv; simp only [setProd_parts]; exact h
+          · unfold AllI; simp only [setProd_parts]; exact h
           · split <;> exact h
         · split
-          · unfold AllInv; simp only [setProd_parts]; exact endTx_inv _ _ _ _ h
-          · exact endTx_inv _ _ _ _ h
+          · unfold AllI; simp only [setProd_parts]; exact endTx_inv I hp _ _ _ _ h
+          · exact endTx_inv I hp _ _ _ _ h
   | del p off =>
     simp only [step]; split
     · exact h
     · rename_i pd hpd
-      apply expireAll_inv
-      unfold AllInv setPart
-      exact set_inv _ _ _ h (pinv_delete pd off (h pd (List.mem_of_getElem? hpd)))
+      split
+      · exact expireAll_inv I hp s h
+      · apply expireAll_inv I hp
+        unfold AllI setPart
+        exact set_inv I _ _ _ h (hp.del pd off (h pd (List.mem_of_getElem? hpd)))
   | sleep ms =>
-    simp only [step]; apply expireAll_inv; exact h
+    simp only [step]; apply expireAll_inv I hp; exact h
   | fetch f ord =>
-    simp only [step]; apply expireAll_inv
-    unfold Model.C32.fetch; simp only
-    split
-    · split <;> exact h
-    · split
-      · exact h
-      · split
-        · exact h
-        · split <;> exact h
+    simp only [step]; apply expireAll_inv I hp
+    exact fetchW_inv I hp s f ord h
+  | move p b =>
+    simp only [step]; split <;> exact h
+  | via b =>
+    simp only [step]; split <;> exact h
 
-theorem init_inv (np : Nat) : AllInv (init np) := by
+theorem init_inv (I : Part → Prop) (h0 : I {}) (np : Nat) : AllI I (init np) := by
   intro pd hpd
   simp only [init, List.mem_replicate] at hpd
-  exact hpd.2 ▸ pinv_init
+  exact hpd.2 ▸ h0
 
+
+/-- every reachable state satisfies a preserved partition invariant. -/
+theorem run_inv (I : Part → Prop) (hp : Pres I) (ops : List Op) (hv : ∀ o ∈ ops, Op.valid o) (s : State) (h : AllI I s) :
+    AllI I (run s ops) := by
+  induction ops generalizing s with
+  | nil => exact h
+  | cons o os ih =>
+    simp only [run]
+    exact ih (fun o' ho' => hv o' (by simp [ho'])) _ (step_inv I hp s o (hv o (by simp)) h)
+
+theorem pres_pinv : Pres PInv :=
+  ⟨fun pd b t hn _ _ h => pinv_push pd b t (by omega) h, pinv_endTx, pinv_delete⟩
 
 end Proof.C32
